@@ -53,13 +53,15 @@ def set_beat(storage, trial_id, beat):
                          {"t": trial_id})
 
 
-def instrument(storage, w, log, num_of):
-    """log every FAIL request that answered True (the storage call is the observation point)"""
+def instrument(storage, w, log, num_of, starts=False):
+    """log every FAIL request that answered True (the storage call is the observation point); starts: also its start"""
     from optuna.trial import TrialState
 
     real = storage.set_trial_state_values
 
     def wrapped(trial_id, state, values=None):
+        if starts and state == TrialState.FAIL:
+            log({"e": "fail_start", "w": w, "n": num_of.get(trial_id, -1)})
         ret = real(trial_id, state, values)
         if state == TrialState.FAIL and ret:
             log({"e": "fail", "w": w, "n": num_of.get(trial_id, -1)})
@@ -231,6 +233,196 @@ def execute(seed, mode, workdir):
                 pass
 
 
+ZOMBIE_FILES = ("optuna/storages/_heartbeat.py", "optuna/storages/_callbacks.py")
+
+
+def zombie_schedule(i, j):
+    """the sweeper (worker 1) runs i steps, the zombie (worker 2) j steps, the sweeper to its end, the zombie to its end"""
+    def factory(sched):
+        def choose(r, step):
+            s = [w for w in r if w.wid == 1]
+            z = [w for w in r if w.wid == 2]
+            if step < i and s:
+                return s[0]
+            if step < i + j and z:
+                return z[0]
+            return s[0] if s else r[0]
+        return choose
+    return factory
+
+
+def execute_zombie(seed, sched_spec, workdir):
+    """One stale RUNNING trial whose worker is slow, not dead: it goes on writing to its trial (suggest, set_user_attr,
+    report) through its own connection while a sweeper (another connection) runs fail_stale_trials.  The sweeper is
+    preemptible at every source line of _heartbeat.py / _callbacks.py and at every SQL statement / commit of its
+    connection; the zombie at every SQL statement / commit.  sched_spec: ("ij", i, j) or ("random", seed, switch)."""
+    common.use_repo()
+    import optuna
+    from optuna.distributions import distribution_to_json
+    from optuna.exceptions import StorageInternalError, UpdateFinishedTrialError
+    from optuna.storages import RetryFailedTrialCallback, fail_stale_trials
+
+    import logging
+    import sqlalchemy
+
+    from . import c03
+
+    logging.getLogger("sqlalchemy.pool").setLevel(logging.CRITICAL)
+    rng = random.Random(seed)
+    max_retry = rng.choice([-1, 1, 2])
+    inherit = rng.randint(0, 1)
+    layout = rng.choice(["Z", "ZD", "DZ", "DZ", "ZD"])          # D = a stale trial whose worker is really dead
+    pool = [("p", "y"), ("p", "z"), ("a", "b"), ("a", "u"), ("a", "c"), ("i", "1"), ("i", "2")]      # ("a","u") overwrites
+    program = rng.sample(pool, rng.choice([2, 3, 3, 4]))
+    tok = Tok()
+    path = tempfile.mkdtemp(prefix="hbz-", dir=workdir)
+    first = sd.fresh_rdb(path, workdir)
+    first.remove_session()
+    first.engine.dispose()
+    url = f"sqlite:///{path}/db.sqlite3"
+    ev = []
+    sched = ts.Scheduler(ZOMBIE_FILES)
+    num_of = {}
+
+    def log(e):
+        (sched.event if sched.current_worker() else ev.append)(e)
+
+    def mk_cb(w):
+        inner = RetryFailedTrialCallback(max_retry=None if max_retry == -1 else max_retry, inherit_intermediate_values=bool(inherit))
+
+        def cb(study, trial):
+            log({"e": "callback", "w": w, "n": trial.number})
+            inner(study, trial)
+            log({"e": "callback_done", "w": w, "n": trial.number})
+        return cb
+
+    def hook(*a, **k):
+        wk = sched.current_worker()
+        if wk is not None:
+            wk.lines += 1
+            sched.yield_point(wk, "sql")
+    storages = []
+    for w in (1, 2):
+        s = make_storage(url, mk_cb(w), timeout0=True)
+        instrument(s, w, log, num_of, starts=True)
+        for name in ("before_cursor_execute", "commit", "rollback"):
+            sqlalchemy.event.listen(s.engine, name, hook)
+        storages.append(s)
+    admin = make_storage(url, None)
+
+    def entries(ft):
+        out = [{"k": "p", "key": k, "v": tok([v, distribution_to_json(ft.distributions[k])])} for k, v in ft.params.items()]
+        out += [{"k": "a", "key": k, "v": tok(v)} for k, v in ft.user_attrs.items()]
+        out += [{"k": "i", "key": str(k), "v": tok(float(v))} for k, v in ft.intermediate_values.items()]
+        return sorted(out, key=lambda e: (e["k"], e["key"]))
+
+    def pk(ft):
+        return tok([sorted(ft.params.items()), sorted((k, v) for k, v in ft.user_attrs.items())])
+    try:
+        common.decoy(admin, seed % 3)
+        optuna.create_study(storage=admin, study_name="hb", sampler=optuna.samplers.RandomSampler(seed=seed))
+        sweeper_study = optuna.load_study(study_name="hb", storage=storages[0])
+        zombie_study = optuna.load_study(study_name="hb", storage=storages[1], sampler=optuna.samplers.RandomSampler(seed=seed + 1))
+        dead_study = optuna.load_study(study_name="hb", storage=admin, sampler=optuna.samplers.RandomSampler(seed=seed + 2))
+        ztrial = None
+        for who in layout:
+            t = (zombie_study if who == "Z" else dead_study).ask()
+            t.suggest_int("x", 0, 9)
+            t.set_user_attr("u", rng.randint(0, 3))
+            t.report(float(rng.randint(0, 5)), 0)
+            set_beat(admin, t._trial_id, "stale")
+            num_of[t._trial_id] = t.number
+            ft = admin.get_trial(t._trial_id)
+            log({"e": "trial", "n": t.number, "state": "RUNNING", "beat": "stale", "hist": [], "pk": pk(ft),
+                 "pkiv": tok(sorted(ft.intermediate_values.items()))})
+            log({"e": "content", "n": t.number, "c": entries(ft)})
+            if who == "Z":
+                ztrial = t
+        zn = ztrial.number
+        dist = optuna.distributions.IntDistribution(0, 9)
+
+        def zombie(worker):
+            for k, key in program:
+                log({"e": "write_start", "w": 2, "n": zn, "k": k, "key": key})
+                ok, v, err = 0, 0, ""
+                try:
+                    if k == "p":
+                        v = tok([ztrial.suggest_int(key, dist.low, dist.high), distribution_to_json(dist)])
+                    elif k == "a":
+                        val = 10 + rng.randint(0, 3)
+                        ztrial.set_user_attr(key, val)
+                        v = tok(val)
+                    else:
+                        val = float(10 + rng.randint(0, 3))
+                        ztrial.report(val, int(key))
+                        v = tok(val)
+                    ok = 1
+                except UpdateFinishedTrialError:
+                    err = "finished"
+                except StorageInternalError:          # `database is locked`: rolled back, no effect
+                    err = "busy"
+                log({"e": "write_end", "w": 2, "n": zn, "k": k, "key": key, "ok": ok, "v": v if ok else 0, "err": err})
+
+        def sweeper(worker):
+            try:
+                fail_stale_trials(sweeper_study)
+            except StorageInternalError:              # `database is locked`: this sweep is over
+                worker.aborted = True
+        sched.add(sweeper)
+        sched.add(zombie)
+        if sched_spec[0] == "ij":
+            factory = zombie_schedule(sched_spec[1], sched_spec[2])
+        else:
+            factory = c03.random_schedule(sched_spec[1], sched_spec[2])
+        info = sched.run(factory(sched))
+        for wk in sched.workers:
+            if wk.error is not None:
+                raise tlc.MachineryError(f"zombie family: worker {wk.wid} raised {wk.error!r} (seed={seed}, schedule={sched_spec})")
+        ev += sched.log
+        fail_stale_trials(sweeper_study)             # a later sweep finds whatever an aborted one left
+        fin = []
+        sid = sweeper_study._study_id
+        for ft in sorted(admin.get_all_trials(sid), key=lambda t: t.number):
+            fin.append({"n": ft.number, "state": ft.state.name, "hist": list(ft.system_attrs.get("retry_history", [])),
+                        "failed": ft.system_attrs.get("failed_trial", -1), "pk": pk(ft),
+                        "pkiv": tok(sorted(ft.intermediate_values.items())), "c": entries(ft)})
+        ev.append({"e": "final", "trials": fin})
+        steps = [sum(1 for c in sched.choices if c == w) for w in (1, 2)]
+        return {"cfg": {"max_retry": max_retry, "inherit": inherit}, "ev": ev, "mode": "zombie", "deadlock": int(info["deadlock"]),
+                "steps": steps, "layout": layout, "program": program,
+                "replay": {"mode": "zombie", "seed": seed, "sched": list(sched_spec)}}
+    finally:
+        for s in storages + [admin]:
+            try:
+                s.remove_session()
+                s.engine.dispose()
+            except Exception:
+                pass
+
+
+def _zombie_task(args):
+    """all single preemptions of the sweeper (every source line / SQL statement), the zombie running j of its steps there"""
+    seed, tier = args
+    workdir = tempfile.mkdtemp(prefix="c19z-", dir=os.environ.get("VERIF_SCRATCH_BASE", "/var/tmp"))
+    try:
+        if tier == "one":
+            return [execute_zombie(seed[0], tuple(seed[1]), workdir)]
+        if tier == "random":
+            rng = random.Random(seed)
+            return [execute_zombie(seed * 1000 + k, ("random", rng.getrandbits(30), rng.choice([0.2, 0.5])), workdir) for k in range(12)]
+        dry = execute_zombie(seed, ("ij", 10 ** 9, 0), workdir)
+        n, m = dry["steps"]
+        rng = random.Random(seed)
+        out = []
+        for i in range(0, n + 1):
+            js = range(0, m + 1) if tier == "all" else sorted({m, rng.randint(1, m)})
+            for j in js:
+                out.append(execute_zombie(seed, ("ij", i, j), workdir))
+        return out
+    finally:
+        shutil.rmtree(workdir, ignore_errors=True)
+
+
 def _task(args):
     mode, seeds = args
     workdir = tempfile.mkdtemp(prefix="c19-", dir=os.environ.get("VERIF_SCRATCH_BASE", "/var/tmp"))
@@ -260,6 +452,19 @@ def judge(ctx, traces, label):
             ctx.known_finding(f, f"a stale trial was failed by two SQLite connections, seed={t['replay']['seed']}")
             continue
         short = ev if ev and ev["e"] != "final" else {"e": "final"}
+        if t["mode"] == "zombie":
+            writes = [f"{e['k']}:{e['key']}" + ("" if e["ok"] else f"({e['err']})") for e in t["ev"] if e["e"] == "write_end"]
+            fin = t["ev"][-1]["trials"]
+            ctx.violation(f"stale trial whose worker is still writing (layout={t['layout']}, max_retry={t['cfg']['max_retry']}, "
+                          f"inherit={t['cfg']['inherit']}, schedule={t['replay']['sched']}): event #{i} {json.dumps(short)[:160]} — "
+                          f"zombie writes {writes}; read back " +
+                          "; ".join(f"#{x['n']} {x['state']} hist={x['hist']} " + ",".join(f"{c['k']}:{c['key']}={c['v']}" for c in x["c"])
+                                    for x in fin) +
+                          " — the retry does not carry the content the failed trial had when it became FAIL (or another clause failed)",
+                          {"replay": t["replay"], "events": t["ev"]})
+            if len(ctx.violations) >= 6:
+                break
+            continue
         ctx.violation(f"stale-trial recovery ({t['mode']}, max_retry={t['cfg']['max_retry']}, inherit={t['cfg']['inherit']}): "
                       f"event #{i} {json.dumps(short)[:200]} — failed/called back more than once, a live or finished trial touched, "
                       f"or a wrong / missing / surplus retry", {"replay": t["replay"], "events": t["ev"]})
@@ -269,11 +474,82 @@ def judge(ctx, traces, label):
     return v
 
 
+def run_zombie(ctx):
+    """family: the worker of a stale trial keeps writing while a sweeper is preempted everywhere between its reads and its FAIL"""
+    if ctx.quick:
+        tasks = [(ctx.seed * 1000 + 500 + k, "sample") for k in range(3)] + [(ctx.seed * 1000 + 600 + k, "random") for k in range(4)]
+    else:
+        tasks = [(ctx.seed * 1000 + 500 + k, "all") for k in range(24)] + [(ctx.seed * 1000 + 600 + k, "random") for k in range(60)]
+    traces = []
+    with cf.ProcessPoolExecutor(max_workers=16) as ex:
+        for res in ex.map(_zombie_task, tasks):
+            traces += res
+    dl = sum(t["deadlock"] for t in traces)
+    if dl:
+        raise tlc.MachineryError(f"zombie family: {dl} executions did not terminate under the scheduler")
+
+    def pos(t, pred):
+        return [k for k, e in enumerate(t["ev"]) if pred(e)]
+    # bookkeeping (vacuity guard): executions in which an accepted write returned after the sweeper had read the stale list
+    # (it had taken at least one step) and before the FAIL call of that trial started / overlapped it / was refused after it
+    between = overlap = refused = retried = 0
+    for t in traces:
+        zn = next(e["n"] for e in t["ev"] if e["e"] == "write_start")
+        fs = pos(t, lambda e: e["e"] == "fail_start" and e["n"] == zn)
+        fe = pos(t, lambda e: e["e"] == "fail" and e["n"] == zn)
+        acc = pos(t, lambda e: e["e"] == "write_end" and e["ok"] == 1)
+        st = pos(t, lambda e: e["e"] == "write_start")
+        swept = t["replay"]["sched"][0] == "random" or t["replay"]["sched"][1] > 0
+        between += int(bool(swept and fs and any(a < fs[0] for a in acc)))
+        overlap += int(bool(fs and fe and any(fs[-1] < x < fe[0] for x in st + acc)))
+        refused += int(any(e["e"] == "write_end" and e["err"] == "finished" for e in t["ev"]))
+        retried += int(any(x["hist"] and x["hist"][-1] == zn for x in t["ev"][-1]["trials"]))
+    ctx.notes["zombie"] = {"executions": len(traces), "accepted_write_before_fail_call": between, "write_overlaps_fail_call": overlap,
+                           "write_refused_after_fail": refused, "zombie_trial_retried": retried}
+    if not (between and refused and retried):
+        raise tlc.MachineryError(f"zombie family vacuous: {ctx.notes['zombie']}")
+    v = judge(ctx, traces, "a stale trial's own worker keeps writing while the sweeper is preempted at every line / SQL statement")
+    ctx.sample({"cfg": traces[len(traces) // 2]["cfg"], "events": traces[len(traces) // 2]["ev"][:24]})
+    if not ctx.violations:
+        good = next((t for t in traces if t["tid"] in v.accepted and any(e["e"] == "write_end" and e["ok"] == 1 for e in t["ev"])
+                     and any(x["hist"] and x["hist"][-1] == next(e["n"] for e in t["ev"] if e["e"] == "write_start")
+                             for x in t["ev"][-1]["trials"])), None)
+        if good is None:
+            raise tlc.MachineryError("zombie family: no accepted trace with an accepted write and a retry")
+        zn = next(e["n"] for e in good["ev"] if e["e"] == "write_start")
+        w0 = next(e for e in good["ev"] if e["e"] == "write_end" and e["ok"] == 1)
+
+        def drop_written(t):
+            for x in t["ev"][-1]["trials"]:
+                if x["hist"] and x["hist"][-1] == zn:
+                    x["c"] = [c for c in x["c"] if not (c["k"] == w0["k"] and c["key"] == w0["key"])]
+        # the first accepted write of `good` may overlap the FAIL call; make the self-test independent of that: use a trace in
+        # which it returned before the FAIL call started if there is one
+        for t in traces:
+            if t["tid"] not in v.accepted:
+                continue
+            fs = pos(t, lambda e: e["e"] == "fail_start")
+            acc = [k for k in pos(t, lambda e: e["e"] == "write_end" and e["ok"] == 1)
+                   if t["ev"][k]["k"] != "i" or t["cfg"]["inherit"] == 1]
+            z2 = next(e["n"] for e in t["ev"] if e["e"] == "write_start")
+            if fs and acc and acc[0] < fs[0] and any(x["hist"] and x["hist"][-1] == z2 for x in t["ev"][-1]["trials"]):
+                good, zn, w0 = t, z2, t["ev"][acc[0]]
+                break
+        else:
+            raise tlc.MachineryError("zombie family: no accepted trace with a write that returned before the FAIL call")
+        ctx.binding_selftest("HeartbeatTrace", "HeartbeatTrace", {"tid": 1, "cfg": good["cfg"], "ev": good["ev"]}, drop_written,
+                             "retry lacks a write accepted before the FAIL")
+
+
 def run(ctx):
     ctx.rule = ("RDBStorage (SQLite) with heartbeats and RetryFailedTrialCallback(max_retry in {None,0,1,2}, inherit 0/1): "
                 "trials in every state/heartbeat pattern (heartbeat rows written directly: no sleeping), (a) 1-2 workers "
                 "sweeping in turn (fail_stale_trials and the sweep inside optimize) while queued retries are taken and die "
                 "again, (b) two workers sweeping concurrently, interleaved per SQL statement, one possibly dying mid-sweep; "
+                "(c) a stale trial whose worker is slow, not dead, and keeps writing (suggest, set_user_attr, report) on its own "
+                "connection while one sweeper is preempted at every source line of _heartbeat.py/_callbacks.py and every SQL "
+                "statement (all single preemptions x zombie progress, plus random schedules): the retry must carry the content "
+                "the trial had when it became FAIL; "
                 "every execution validated by TLC against HeartbeatTrace; distinct = distinct event sequences with a callback")
     r = tlc.require_model("HeartbeatMC", "HeartbeatMC_q",
                           must_cover=["ReadStale", "FailCAS", "StartCallbacks", "Callback", "EndSweep", "RetryDies", "Crash"],
@@ -290,6 +566,7 @@ def run(ctx):
             traces += res
     ctx.notes["deadlocks"] = sum(t["deadlock"] for t in traces)
     v = judge(ctx, traces, "sweeps on SQLite with controlled heartbeats")
+    run_zombie(ctx)
     for t in traces[:: max(1, len(traces) // 3)][:3]:
         ctx.sample({"cfg": t["cfg"], "events": t["ev"][:14]})
     if not ctx.violations:
@@ -316,5 +593,8 @@ def run(ctx):
 
 def replay(ctx, data):
     r = data["replay"]
-    traces = _task((r["mode"], [r["seed"]]))
+    if r["mode"] == "zombie":
+        traces = _zombie_task(((r["seed"], r["sched"]), "one"))
+    else:
+        traces = _task((r["mode"], [r["seed"]]))
     judge(ctx, traces, "replay")
